@@ -18,7 +18,7 @@ def run(rep):
     control.parse_deductive(rep, control.PARSE_BODY + control.PARSE_CLAUSE)
     control.text_deductive(rep)
     q = rep.tier == 'quick'
-    fw.standin(rep, 's_c12.py', ['run', rep.seed, 250 if q else 4000],
+    fw.standin(rep, 's_c12.py', ['run', rep.seed, 1000 if q else 6000],
                'hostile atoms in every syntactic position: AST whitelist of the output, names, call targets, string constants; hostile run-time queries',
                'quoted atoms with Python syntax, quotes, newlines, control characters x positions; 266 hostile queries per case')
     fw.standin(rep, 's_init.py', ['run'], 'ground check: __builtins__ of the script context is an empty dict; API names are not callable', 'single configuration')
